@@ -193,6 +193,8 @@ def run(ctx) -> int:
         distinct_nontrivial=nontrivial,
         rule="non-trivial = reaches check_cfg_linearity (no earlier type error) and holds at least one qubit/non-copyable place",
         pre_linearity_errors=stats["pre"], unmodelled=stats["unmodelled"],
+        generated_programs_skipped_as_outside_the_model=stats["unmodelled"],
+        generated_programs_rejected_before_the_linearity_pass=stats["pre"],
         unmodelled_reasons=dict(stats["unmodelled_reasons"]),
         impl_verdicts=dict(stats["impl_verdicts"]), model_verdicts=dict(stats["model_verdicts"]),
         blocks_histogram={str(k): v for k, v in sorted(stats["blocks_hist"].items())},
